@@ -4,11 +4,13 @@ import NdnModel.Cascade
 -/
 namespace Ndn.Cascade
 
+variable {N : Type} [DecidableEq N]
+
 /-- "the signature of `o` verifies under the public key `k`": the key is of the kind the declared
     signature type needs and the signature was produced by the holder of `k`'s private key
     (`Signed`, the ground truth).  No HMAC / digest / unknown-type signature ever verifies under a
     certificate's *public* key. -/
-def Verifies (Signed : Key → Obj → Prop) (k : Key) (o : Obj) : Prop :=
+def Verifies (Signed : Key → Obj N → Prop) (k : Key) (o : Obj N) : Prop :=
   keyFits o.sigType k.kty = true ∧ Signed k o
 
 /-- `ChainD E Signed d o`: there is a chain  o — certificate — … — trust anchor  with `d`
@@ -16,35 +18,36 @@ def Verifies (Signed : Key → Obj → Prop) (k : Key) (o : Obj) : Prop :=
     key, every link is allowed by the schema's signing check, every signature verifies under the
     next certificate's public key, and every certificate on the way can be retrieved.
     A name equal to the anchor's name denotes the anchor. -/
-inductive ChainD (E : Env) (Signed : Key → Obj → Prop) : Nat → Obj → Prop where
-  | anchor (o : Obj) :
+inductive ChainD (E : Env N) (Signed : Key → Obj N → Prop) : Nat → Obj N → Prop where
+  | anchor (o : Obj N) :
       o.keyLoc = some E.anchorName → E.allowed o.name E.anchorName = true →
       Verifies Signed E.anchorKey o → ChainD E Signed 0 o
-  | step (o : Obj) (kn : Name) (c : Obj) (k : Key) (d : Nat) :
+  | step (o : Obj N) (kn : N) (c : Obj N) (k : Key) (d : Nat) :
       o.keyLoc = some kn → kn ≠ E.anchorName → E.allowed o.name kn = true →
       E.world kn = some (.data c) → c.name = kn → c.content = some k →
       Verifies Signed k o → ChainD E Signed d c → ChainD E Signed (d + 1) o
 
-def Chain (E : Env) (Signed : Key → Obj → Prop) (o : Obj) : Prop := ∃ d, ChainD E Signed d o
+def Chain (E : Env N) (Signed : Key → Obj N → Prop) (o : Obj N) : Prop := ∃ d, ChainD E Signed d o
 
 /-- invariant of an instance's key storage: every cached key is the key of a certificate that is
     retrievable in this world under that name and itself has a chain to this instance's anchor -/
-def CacheInv (E : Env) (Signed : Key → Obj → Prop) (st : Cache) : Prop :=
+def CacheInv (E : Env N) (Signed : Key → Obj N → Prop) (st : Cache N) : Prop :=
   ∀ n k, cacheLoad st n = some k →
     ∃ c, E.world n = some (.data c) ∧ c.name = n ∧ c.content = some k ∧ Chain E Signed c
 
 /-- the ideal-signature hypotheses, always stated as hypotheses of theorems -/
-def Unforgeable (E : Env) (Signed : Key → Obj → Prop) : Prop := ∀ k o, E.crypto k o = true → Signed k o
-def Correct (E : Env) (Signed : Key → Obj → Prop) : Prop := ∀ k o, Signed k o → E.crypto k o = true
+def Unforgeable (E : Env N) (Signed : Key → Obj N → Prop) : Prop := ∀ k o, E.crypto k o = true → Signed k o
+def Correct (E : Env N) (Signed : Key → Obj N → Prop) : Prop := ∀ k o, Signed k o → E.crypto k o = true
 
-theorem cacheInv_nil (E : Env) (Signed) : CacheInv E Signed [] := by
+theorem cacheInv_nil (E : Env N) (Signed) : CacheInv E Signed [] := by
   intro n k h; simp [cacheLoad] at h
 
-theorem cacheLoad_save (st : Cache) (n m : Name) (k : Key) :
+theorem cacheLoad_save (st : Cache N) (n m : N) (k : Key) :
     cacheLoad (cacheSave st n k) m = if n = m then some k else cacheLoad st m := by
   simp [cacheSave, cacheLoad]
 
-theorem verifySig_accept {crypto : Key → Obj → Bool} {k : Key} {o : Obj}
+omit [DecidableEq N] in
+theorem verifySig_accept {crypto : Key → Obj N → Bool} {k : Key} {o : Obj N}
     (h : verifySig crypto k o = .accept) : keyFits o.sigType k.kty = true ∧ crypto k o = true := by
   unfold verifySig at h
   cases ht : o.sigType <;> rw [ht] at h <;> simp only [] at h
@@ -58,13 +61,15 @@ theorem verifySig_accept {crypto : Key → Obj → Bool} {k : Key} {o : Obj}
       · cases h
     · cases h
 
-theorem verifySig_of_verifies {crypto : Key → Obj → Bool} {k : Key} {o : Obj}
+omit [DecidableEq N] in
+theorem verifySig_of_verifies {crypto : Key → Obj N → Bool} {k : Key} {o : Obj N}
     (hf : keyFits o.sigType k.kty = true) (hc : crypto k o = true) : verifySig crypto k o = .accept := by
   unfold verifySig
   cases ht : o.sigType <;> rw [ht] at hf <;> simp_all [keyFits]
 
+omit [DecidableEq N] in
 /-- `verifySig` under the ideal-signature hypotheses is exactly `Verifies` -/
-theorem verifySig_iff (E : Env) (Signed) (hu : Unforgeable E Signed) (hc : Correct E Signed) (k : Key) (o : Obj) :
+theorem verifySig_iff (E : Env N) (Signed) (hu : Unforgeable E Signed) (hc : Correct E Signed) (k : Key) (o : Obj N) :
     verifySig E.crypto k o = .accept ↔ Verifies Signed k o := by
   constructor
   · intro h
@@ -75,7 +80,7 @@ theorem verifySig_iff (E : Env) (Signed) (hu : Unforgeable E Signed) (hc : Corre
 
 /-! ### the validator against the specification -/
 
-theorem validate_sound_aux (E : Env) (Signed : Key → Obj → Prop) (hu : Unforgeable E Signed) :
+theorem validate_sound_aux (E : Env N) (Signed : Key → Obj N → Prop) (hu : Unforgeable E Signed) :
     ∀ fuel st o, CacheInv E Signed st → (validate E fuel st o).verdict = some .accept →
       Chain E Signed o := by
   intro fuel
@@ -123,7 +128,7 @@ theorem validate_sound_aux (E : Env) (Signed : Key → Obj → Prop) (hu : Unfor
                 · simp at h
                 · simp at h
             · simp at h
-theorem cache_inv_preserved_aux (E : Env) (Signed : Key → Obj → Prop) (hu : Unforgeable E Signed) :
+theorem cache_inv_preserved_aux (E : Env N) (Signed : Key → Obj N → Prop) (hu : Unforgeable E Signed) :
     ∀ fuel st o, CacheInv E Signed st → CacheInv E Signed (validate E fuel st o).cache := by
   intro fuel
   induction fuel with
@@ -165,7 +170,7 @@ theorem cache_inv_preserved_aux (E : Env) (Signed : Key → Obj → Prop) (hu : 
                 · exact hr
             · exact hinv
 
-theorem validate_complete_aux (E : Env) (Signed : Key → Obj → Prop) (hc : Correct E Signed) :
+theorem validate_complete_aux (E : Env N) (Signed : Key → Obj N → Prop) (hc : Correct E Signed) :
     ∀ d o, ChainD E Signed d o → ∀ fuel st, CacheInv E Signed st → d < fuel →
       (validate E fuel st o).verdict = some .accept := by
   intro d o h
@@ -193,7 +198,7 @@ theorem validate_complete_aux (E : Env) (Signed : Key → Obj → Prop) (hc : Co
       simp [hw, hcn, this, hcc, verifySig_of_verifies hv.1 (hc _ _ hv.2)]
 
 /-- with a chain, whatever the fuel: either no verdict yet, or acceptance -/
-theorem chain_verdict_aux (E : Env) (Signed : Key → Obj → Prop) (hc : Correct E Signed) :
+theorem chain_verdict_aux (E : Env N) (Signed : Key → Obj N → Prop) (hc : Correct E Signed) :
     ∀ d o, ChainD E Signed d o → ∀ fuel st, CacheInv E Signed st →
       (validate E fuel st o).verdict = none ∨ (validate E fuel st o).verdict = some .accept := by
   intro d o h
@@ -226,9 +231,10 @@ theorem chain_verdict_aux (E : Env) (Signed : Key → Obj → Prop) (hc : Correc
         · left; simp [hw, hcn, h0]
         · right; simp [hw, hcn, h1, hcc, verifySig_of_verifies hv.1 (hc _ _ hv.2)]
 
+omit [DecidableEq N] in
 /-- no chain starts inside a set of names that is closed under "key locator of the certificate
     retrievable under that name" and does not contain the anchor's name (certificate loops) -/
-theorem no_chain_in_closed_set (E : Env) (Signed : Key → Obj → Prop) (S : Name → Prop)
+theorem no_chain_in_closed_set (E : Env N) (Signed : Key → Obj N → Prop) (S : N → Prop)
     (hS : ∀ n c, S n → E.world n = some (.data c) → ∃ m, c.keyLoc = some m ∧ S m)
     (hA : ¬ S E.anchorName) :
     ∀ d o, ChainD E Signed d o → ∀ n, o.keyLoc = some n → S n → False := by
@@ -243,8 +249,8 @@ theorem no_chain_in_closed_set (E : Env) (Signed : Key → Obj → Prop) (S : Na
     obtain ⟨m, hm, hsm⟩ := hS _ c hs hw
     exact ih m hm hsm
 
-theorem runHist_inv (E : Env) (Signed : Key → Obj → Prop) (hu : Unforgeable E Signed) :
-    ∀ (h : List (Nat × Obj)) st, CacheInv E Signed st → CacheInv E Signed (runHist E st h) := by
+theorem runHist_inv (E : Env N) (Signed : Key → Obj N → Prop) (hu : Unforgeable E Signed) :
+    ∀ (h : List (Nat × Obj N)) st, CacheInv E Signed st → CacheInv E Signed (runHist E st h) := by
   intro h
   induction h with
   | nil => intro st hs; simpa [runHist] using hs
@@ -256,8 +262,8 @@ theorem runHist_inv (E : Env) (Signed : Key → Obj → Prop) (hu : Unforgeable 
 
 /-- the storage of instance `i` after a system history is what `i` alone would have built from its
     own steps -/
-theorem runSys_proj (envs : Nat → Env) (i : Nat) :
-    ∀ (h : List (Nat × Nat × Obj)) (cs : Nat → Cache),
+theorem runSys_proj (envs : Nat → Env N) (i : Nat) :
+    ∀ (h : List (Nat × Nat × Obj N)) (cs : Nat → Cache N),
       runSys envs cs h i =
         runHist (envs i) (cs i) ((h.filter fun s => s.1 = i).map fun s => s.2) := by
   intro h
